@@ -83,7 +83,19 @@ func runC13(c *Ctx) {
 		}
 		// (d) response closures
 		nrecv := 0
-		for _, fn := range an.WithClosures(exec) {
+		recvIn := map[*ssa.Function]bool{}
+		// the receive sits in the response closure or in a method it calls (`ec.nextDeferredResult(ctx)`)
+		recvFuncs := an.WithClosures(exec)
+		inExec := map[*ssa.Function]bool{}
+		for _, f := range recvFuncs {
+			inExec[f] = true
+		}
+		for _, f := range c.genFuncs(g) {
+			if !inExec[f] && f.Parent() == nil && f.Signature.Recv() != nil {
+				recvFuncs = append(recvFuncs, f)
+			}
+		}
+		for _, fn := range recvFuncs {
 			for _, b := range fn.Blocks {
 				for _, in := range b.Instrs {
 					var at ssa.Instruction
@@ -103,6 +115,7 @@ func runC13(c *Ctx) {
 						continue
 					}
 					nrecv++
+					recvIn[fn] = true
 					guard := false
 					for _, f := range an.Facts(at) {
 						if call, ok := f.X.(*ssa.Call); ok {
@@ -130,22 +143,34 @@ func runC13(c *Ctx) {
 					}
 					c.R.Check(guard && ndec == 1 && decAfter, pfx+"Exec/receive-accounted", c.ipos(at), "receive under pending > 0, one decrement after it",
 						sprintf("deferred results are received without matching accounting (guard pending>0: %v, decrements: %d, after receive: %v): the stream ends early or the handler blocks forever", guard, ndec, decAfter))
-					// (f) hasNext after marshal
-					var marshal, hasNext ssa.Instruction
-					for _, b2 := range fn.Blocks {
-						for _, in2 := range b2.Instrs {
-							if call, ok := in2.(ssa.CallInstruction); ok && call.Common().IsInvoke() && call.Common().Method.Name() == "MarshalGQL" {
-								marshal = in2
-							}
-							if call, ok := isAtomicOn(in2, "LoadInt32", "pendingDeferred"); ok && marshal != nil && an.CanReach(marshal, call) {
-								hasNext = call
-							}
-						}
-					}
-					c.R.Check(marshal != nil && hasNext != nil && an.Before(marshal, hasNext), pfx+"Exec/hasNext-after-marshal", c.pos(fn.Pos()), "pendingDeferred read for hasNext after data.MarshalGQL",
-						"hasNext is computed before the payload is marshalled: groups started while marshalling (nested @defer) are not counted and the client stops reading too early")
 				}
 			}
+		}
+		// (f) hasNext after marshal: in the response closure that marshals the payload
+		for _, fn := range an.WithClosures(exec) {
+			var marshal, hasNext ssa.Instruction
+			for _, b2 := range fn.Blocks {
+				for _, in2 := range b2.Instrs {
+					if call, ok := in2.(ssa.CallInstruction); ok && call.Common().IsInvoke() && call.Common().Method.Name() == "MarshalGQL" {
+						marshal = in2
+					}
+					if call, ok := isAtomicOn(in2, "LoadInt32", "pendingDeferred"); ok && marshal != nil && an.CanReach(marshal, call) {
+						hasNext = call
+					}
+				}
+			}
+			// only the closure that delivers deferred results computes hasNext: it receives itself or calls the method that does
+			delivers := recvIn[fn]
+			for _, call := range an.CallsIn(fn, func(_ ssa.CallInstruction, ci an.CalleeInfo) bool { return ci.Static != nil && recvIn[ci.Static] }) {
+				if call.Parent() == fn {
+					delivers = true
+				}
+			}
+			if marshal == nil || !delivers {
+				continue
+			}
+			c.R.Check(hasNext != nil && an.Before(marshal, hasNext), pfx+"Exec/hasNext-after-marshal", c.pos(fn.Pos()), "pendingDeferred read for hasNext after data.MarshalGQL",
+				"hasNext is computed before the payload is marshalled: groups started while marshalling (nested @defer) are not counted and the client stops reading too early")
 		}
 		if nrecv == 0 {
 			c.R.Bad(pfx+"Exec/receive-accounted", c.pos(exec.Pos()), "the response handler never receives deferred results")
